@@ -67,7 +67,11 @@ func acquireRealZstdWriter(w io.Writer, level int) *zstd.Encoder {
 	p := realZstdWriterPoolMap[nLevel]
 	v := p.Get()
 	if v == nil {
-		zw, err := zstd.NewWriter(w, zstd.WithEncoderLevel(zstd.EncoderLevel(nLevel)))
+		// WithEncoderConcurrency(1) keeps the encoder synchronous. With the default
+		// (GOMAXPROCS) it writes finished blocks to w from its own goroutines after
+		// Write has returned, which races with stackless.writer handing w's buffer on
+		// and loses or corrupts blocks.
+		zw, err := zstd.NewWriter(w, zstd.WithEncoderLevel(zstd.EncoderLevel(nLevel)), zstd.WithEncoderConcurrency(1))
 		if err != nil {
 			panic(err)
 		}
